@@ -91,6 +91,12 @@ pub open spec fn out_alone(loc: Seq<LEntry>, k: int) -> Seq<Out> decreases k {
 //@@ type file=fe2o3-amqp/src/link/state.rs kind=enum name=LinkState
 //@@ end
 pub enum SenderAttachExchange { Complete, IncompleteUnsettled(Vec<Out>), Resume(Vec<Out>) }
+impl SenderAttachExchange {
+//@@ fn file=fe2o3-amqp/src/link/mod.rs impl=`impl SenderAttachExchange` name=complete_or id=SenderAttachExchange::complete_or
+//@@ spec
+    ensures self is Complete ==> r is Ok, !(self is Complete) ==> r == Err::<(), E>(err),       // [C02.attach.only-a-complete-exchange-is-an-attached-link] a plain attach succeeds only when the exchange completed: one that found unsettled deliveries to resume is reported to the caller, the link is not silently treated as freshly attached (what unit WIRING assumes of it)
+//@@ end
+}
 pub struct SenderLink { pub unsettled: Option<LocalMap>, pub local_state: LinkState }
 pub open spec fn incomplete(st: LinkState) -> bool { st is IncompleteAttachReceived || st is IncompleteAttachSent || st is IncompleteAttachExchanged }
 pub open spec fn list_of(r: SenderAttachExchange) -> Seq<Out> { match r { SenderAttachExchange::Complete => Seq::empty(), SenderAttachExchange::IncompleteUnsettled(v) => v@, SenderAttachExchange::Resume(v) => v@ } }
